@@ -161,3 +161,12 @@ BUILT['C19'] = (
     "plane through point+normal and through three points, line-plane intersection with its line parameter; == | ^ contains on "
     "exact configurations (rescaled / reversed / displaced lines)",
     NOTE, "DESIGN.md 4 C19")
+BUILT['C20'] = (
+    "boundary monitor on the spatial-vector and spatial-inertia operators against reference 6x6 matrices written from the "
+    "textbook definitions; guard table for mixed classes / unequal lengths; cross product re-evaluated after list updates",
+    "element-wise + - neg bit-exact within each of the four classes (single- and multi-valued), every ordered class pair and "
+    "length mismatch must raise, motion and force cross products equal crm(v) m and -crm(v)^T f with the duality identity, also "
+    "after the velocity object was changed through setitem/append/pop/in-place writes, SpatialInertia equals the symmetric "
+    "parallel-axis matrix, sums and products with acceleration/velocity give force/momentum, SE3 applies Ad to motion and Ad^T "
+    "to force vectors (1..7 values); magnitudes 1e-6..1e6",
+    NOTE, "DESIGN.md 4 C20")
